@@ -361,6 +361,10 @@ func (s *c14Shadow) get(k string) (int, bool) {
 
 func c14GenDictHistory(r *Rng, n int) []c14DictOp {
 	keys := []string{"a", "b", "c", "", "é", "k1", "k2", "a b"}
+	if r.Chance(1, 3) {
+		// record keys: "x|y" = {A: x; B: y}; several of them print alike
+		keys = []string{"git|commit -m", "git commit|-m", "a|b", "a b|", "|a b", "a |b", "|", " |"}
+	}
 	ops := []c14DictOp{{Op: "new"}}
 	nd := 1
 	for len(ops) < n {
@@ -404,7 +408,28 @@ func c14SortedJoin(xs []string) string {
 // runs a history on real dictionaries; returns per-op canonical results, the oracle request and
 // the first property failure (checked against the shadow maps)
 func c14RunDict(ops []c14DictOp) (results []string, req string, bad string) {
-	var ds []dict.Dict[string, int]
+	for _, o := range ops {
+		if gostrings.Contains(o.K, "|") || gostrings.Contains(gostrings.Join(o.KV, ""), "|") {
+			// keys "x|y" stand for the record key {A: x; B: y}: distinct keys that print alike ({git commit -m})
+			return c14RunDictK(ops, func(k string) c14PairKey {
+				a, b, _ := gostrings.Cut(k, "|")
+				return c14PairKey{a, b}
+			})
+		}
+	}
+	return c14RunDictK(ops, func(k string) string { return k })
+}
+
+type c14PairKey struct{ A, B string }
+
+func c14RunDictK[K comparable](ops []c14DictOp, enc func(string) K) (results []string, req string, bad string) {
+	back := map[K]string{}
+	key := func(k string) K {
+		e := enc(k)
+		back[e] = k
+		return e
+	}
+	var ds []dict.Dict[K, int]
 	var sh []*c14Shadow
 	var rq []string
 	fail := func(i int, format string, a ...any) {
@@ -420,17 +445,17 @@ func c14RunDict(ops []c14DictOp) (results []string, req string, bad string) {
 		}
 		switch o.Op {
 		case "new":
-			ds = append(ds, dict.New[string, int]())
+			ds = append(ds, dict.New[K, int]())
 			sh = append(sh, &c14Shadow{})
 			results = append(results, fmt.Sprintf("ref:%d", len(ds)-1))
 			rq = append(rq, "(new)")
 		case "todict":
-			var tps []frt.Tuple2[string, int]
+			var tps []frt.Tuple2[K, int]
 			s := &c14Shadow{}
 			var q []string
 			for j := 0; j+1 < len(o.KV); j += 2 {
 				v, _ := strconv.Atoi(o.KV[j+1])
-				tps = append(tps, frt.NewTuple2(o.KV[j], v))
+				tps = append(tps, frt.NewTuple2(key(o.KV[j]), v))
 				s.set(o.KV[j], v)
 				q = append(q, fmt.Sprintf("(%s %d)", c14Sq(o.KV[j]), v))
 			}
@@ -440,12 +465,12 @@ func c14RunDict(ops []c14DictOp) (results []string, req string, bad string) {
 			rq = append(rq, "(todict ("+gostrings.Join(q, " ")+"))")
 		case "add":
 			alias := ds[o.D] // a copy of the struct shares the map
-			dict.Add(alias, o.K, o.V)
+			dict.Add(alias, key(o.K), o.V)
 			sh[o.D].set(o.K, o.V)
 			results = append(results, "unit")
 			rq = append(rq, fmt.Sprintf("(add %d %s %d)", o.D, c14Sq(o.K), o.V))
 		case "has":
-			r := dict.ContainsKey(ds[o.D], o.K)
+			r := dict.ContainsKey(ds[o.D], key(o.K))
 			_, ok := sh[o.D].get(o.K)
 			if r != ok {
 				fail(i, "ContainsKey %q = %v but the key was %s", o.K, r, map[bool]string{true: "added", false: "never added"}[ok])
@@ -453,7 +478,7 @@ func c14RunDict(ops []c14DictOp) (results []string, req string, bad string) {
 			results = append(results, fmt.Sprintf("bool:%v", r))
 			rq = append(rq, fmt.Sprintf("(has %d %s)", o.D, c14Sq(o.K)))
 		case "find":
-			v, found := frt.Destr2(dict.TryFind(ds[o.D], o.K))
+			v, found := frt.Destr2(dict.TryFind(ds[o.D], key(o.K)))
 			sv, ok := sh[o.D].get(o.K)
 			if found != ok || v != sv {
 				fail(i, "TryFind %q = (%d, %v), the finite map has (%d, %v)", o.K, v, found, sv, ok)
@@ -461,7 +486,7 @@ func c14RunDict(ops []c14DictOp) (results []string, req string, bad string) {
 			results = append(results, fmt.Sprintf("find:%d:%v", v, found))
 			rq = append(rq, fmt.Sprintf("(find %d %s)", o.D, c14Sq(o.K)))
 		case "item":
-			v := dict.Item(ds[o.D], o.K)
+			v := dict.Item(ds[o.D], key(o.K))
 			sv, _ := sh[o.D].get(o.K)
 			if v != sv {
 				fail(i, "Item %q = %d, the finite map has %d", o.K, v, sv)
@@ -471,7 +496,7 @@ func c14RunDict(ops []c14DictOp) (results []string, req string, bad string) {
 		case "kvs":
 			var got, want []string
 			for _, tp := range dict.KVs(ds[o.D]) {
-				got = append(got, fmt.Sprintf("%s=%d", c14Sq(tp.E0), tp.E1))
+				got = append(got, fmt.Sprintf("%s=%d", c14Sq(back[tp.E0]), tp.E1))
 			}
 			for j := range sh[o.D].ks {
 				want = append(want, fmt.Sprintf("%s=%d", c14Sq(sh[o.D].ks[j]), sh[o.D].vs[j]))
@@ -485,7 +510,7 @@ func c14RunDict(ops []c14DictOp) (results []string, req string, bad string) {
 		case "keys":
 			var got, want []string
 			for _, k := range dict.Keys(ds[o.D]) {
-				got = append(got, c14Sq(k))
+				got = append(got, c14Sq(back[k]))
 			}
 			for _, k := range sh[o.D].ks {
 				want = append(want, c14Sq(k))
